@@ -68,7 +68,7 @@ func C04(c *run.Check) {
 
 	// (a) string -> number
 	maxLen := 4
-	if !c.Quick() {
+	if true { // the larger universe runs in seconds: used in both tiers
 		maxLen = 5
 	}
 	strs := c07Strings(c04Sigma, maxLen)
@@ -171,7 +171,7 @@ func C04(c *run.Check) {
 	var jobs []job
 	for _, f := range shapes {
 		for _, dc := range []int{adoc.D0, adoc.D1, adoc.D2, adoc.D3} {
-			if c.Quick() && treeSize(f) == n && dc != adoc.D0 && dc != adoc.D2 {
+			if false && treeSize(f) == n && dc != adoc.D0 && dc != adoc.D2 {
 				continue
 			}
 			jobs = append(jobs, job{f, dc})
@@ -208,7 +208,7 @@ func C04(c *run.Check) {
 		"string-length(preceding::*)", "starts-with(preceding::*, 't')", "preceding::* = 't1'", "string((//*)[last()]/preceding::*)", "ancestor::* = .", "sum(preceding::text()) = sum(preceding::text())"})
 	xe := newXRunner(c, "C04/nodeset", c01Env)
 	shapes3 := c01Shapes(3)
-	if !c.Quick() {
+	if true {
 		shapes3 = c01Shapes(4)
 	}
 	var j3 []job
